@@ -163,7 +163,8 @@ def rep_summary(rep):
     if rep.outcome.kind != 'return':
         return (rep.outcome.kind, type(rep.outcome.exc).__name__)
     pb = rep.playback
-    return ('return', sorted(R.outputs_as_map(pb.playback_outputs)[0].items()), sorted(R.outputs_as_map(pb.recorded_outputs)[0].items()),
+    # as lists (one entry per captured output, duplicates and leftovers of earlier runs included), in key order
+    return ('return', sorted((o.key, V.canon(o.value)) for o in pb.playback_outputs), sorted((o.key, V.canon(o.value)) for o in pb.recorded_outputs),
             rep.op_outcome.canon() if rep.op_outcome else None, len(rep.env.journal))
 
 
